@@ -422,7 +422,9 @@ def find_links(
                 if unknown_handling == LNK_UNKNOWN_NONNEIGHBOR:
                     continue
                 if unknown_handling == LNK_UNKNOWN_NEIGHBOR:
-                    links.add(link)
+                    # the filter applies whatever the link's type
+                    if filterfunc is None or filterfunc(link):
+                        links.add(link)
                 else:
                     raise NotImplementedError(
                         f"Unknown link class {type(link)}"
